@@ -20,7 +20,7 @@ namespace Wz.C01
 open Wz.Spec Wz.Spec.Wasm Wz.Model.InterpStraight
 
 /-- **Straight-line refinement** (restated; proof in `Wz.Proofs.C01_straight`). -/
-theorem interp_refines_spec_straightline' (p : List SInstr) (s : List SVal) (o : IOut)
+theorem C01_interp_straightline (p : List SInstr) (s : List SVal) (o : IOut)
     (h : expected (specRun p s) = some o) : interpRun p (s.map slot) = o :=
   interp_refines_spec_straightline p s o h
 
